@@ -20,6 +20,7 @@ func exceeds(a, bound float64, tol float64) bool {
 // CheckReclaim is the C07 oracle on one cycle. Allocations are recomputed from the store and the ordered
 // calls, deserved quota from the queue specs, fair share from the proportion plugin's result (validated by C09).
 func CheckReclaim(w *World, rec *CycleRecord) ([]Finding, ReclaimFacts) {
+	w = rec.Effective(w)
 	var out []Finding
 	var facts ReclaimFacts
 	if rec.Shares == nil {
